@@ -274,6 +274,57 @@ type OmitIfc struct {
 	P  PlainS      `struct:"p,omitempty"`
 }
 
+// Pair and Quad are named array types with Triple's element type.
+type Pair [2]int16
+type Quad [4]int16
+
+// BadField cannot be unfolded into (a map with non-string keys), although the
+// fields before and after it can: SetTarget must refuse it, every time.
+type BadField struct {
+	A int
+	M map[int]string
+	Z string
+}
+
+type HasBad struct {
+	Name string
+	B    BadField
+	P    *BadField
+}
+
+// OptInt reports emptiness through a POINTER-receiver IsZero and folds itself.
+type OptInt struct {
+	Set bool
+	V   int
+}
+
+func (o *OptInt) IsZero() bool { return o == nil || !o.Set }
+func (o *OptInt) Fold(v structform.ExtVisitor) error {
+	if o != nil && o.Set {
+		return v.OnInt(o.V)
+	}
+	return v.OnNil()
+}
+
+type Opts struct {
+	A OptInt  `struct:"a,omitempty"`
+	B OptInt  `struct:"b,omitempty"`
+	P *OptInt `struct:"p,omitempty"`
+	N int
+}
+
+// Label is unfolded through a user-defined primitive unfolder that RETAINS the
+// string it is handed (see UnfolderOpts).
+type Label struct{ S string }
+
+type Labeled struct {
+	Name string
+	L    Label
+	P    *Label
+	LL   []Label
+	M    map[string]Label
+}
+
 // Empty has size zero: slices of it have elements without extent.
 type Empty struct{}
 
@@ -567,8 +618,20 @@ func UnfolderOpts(v int) []gotype.UnfoldOption {
 	if v == 0 {
 		return nil
 	}
-	return append(scoreOpts(v), TreeUnfolder())
+	return append(scoreOpts(v), TreeUnfolder(), LabelUnfolder())
 }
+
+// LabelUnfolder registers a primitive user unfolder for Label that keeps the
+// string it receives - as user code may: the string type promises immutability.
+func LabelUnfolder() gotype.UnfoldOption {
+	return gotype.Unfolders(func(to *Label, s string) error {
+		to.S = s
+		return nil
+	})
+}
+
+// Fold reports a Label as its bare string (the counterpart of LabelUnfolder).
+func (l Label) Fold(v structform.ExtVisitor) error { return v.OnString(l.S) }
 
 func scoreOpts(v int) []gotype.UnfoldOption {
 	switch v {
@@ -1271,6 +1334,41 @@ var Catalogue = []TypeEntry{
 		return WithFolder{Name: genStr(c), T: Celsius(c.N(100)), TS: genSlice(c, func(c *simkit.Choices) Celsius { return Celsius(c.N(50)) })}
 	})),
 	unsupported(mk("map[int]string", true, func(c *simkit.Choices) map[int]string { return nil })),
+	unsupported(mk("BadField", true, func(c *simkit.Choices) BadField { return BadField{A: c.N(10), Z: genStr(c)} })),
+	unsupported(mk("HasBad", true, func(c *simkit.Choices) HasBad { return HasBad{Name: genStr(c)} })),
+	unsupported(mk("[]BadField", true, func(c *simkit.Choices) []BadField { return nil })),
+	foldOnly(mk("Triple", false, func(c *simkit.Choices) Triple { return Triple{int16(c.N(65536)), 2, -3} })),
+	foldOnly(mk("Pair", false, func(c *simkit.Choices) Pair { return Pair{int16(c.N(65536)), -2} })),
+	foldOnly(mk("Quad", false, func(c *simkit.Choices) Quad { return Quad{int16(c.N(65536)), 2, 3, -4} })),
+	foldOnly(mk("[]interface{}-of-named-arrays", false, func(c *simkit.Choices) []interface{} {
+		pool := []interface{}{Triple{1, 2, 3}, Pair{4, 5}, Quad{6, 7, 8, 9}, [2]int16{1, 2}, NamedSlice{1}, map[string]interface{}{"p": Pair{1, 1}}}
+		var out []interface{}
+		for i, n := 0, 1+c.N(4); i < n; i++ {
+			out = append(out, pool[c.N(len(pool))])
+		}
+		return out
+	})),
+	foldOnly(mk("Opts", false, func(c *simkit.Choices) Opts {
+		o := Opts{A: OptInt{Set: c.Bool(), V: c.N(1000)}, B: OptInt{Set: c.Bool(), V: c.N(1000)}, N: c.N(10)}
+		if c.Bool() {
+			o.P = &OptInt{Set: c.Bool(), V: c.N(1000)}
+		}
+		return o
+	})),
+	foldOnly(mk("[]Opts", false, func(c *simkit.Choices) []Opts {
+		return genSlice(c, func(c *simkit.Choices) Opts {
+			return Opts{A: OptInt{Set: c.Bool(), V: c.N(1000)}, B: OptInt{Set: true, V: c.N(1000)}}
+		})
+	})),
+	mk("Label", true, func(c *simkit.Choices) Label { return Label{S: genStr(c)} }),
+	mk("Labeled", true, func(c *simkit.Choices) Labeled {
+		l := Labeled{Name: genStr(c), L: Label{S: genStr(c)}, LL: genSlice(c, func(c *simkit.Choices) Label { return Label{S: genStr(c)} }),
+			M: genMap(c, func(c *simkit.Choices) Label { return Label{S: genStr(c)} })}
+		if c.Bool() {
+			l.P = &Label{S: genStr(c)}
+		}
+		return l
+	}),
 }
 
 // localRecordA and localRecordB declare two DISTINCT struct types that share
@@ -1309,7 +1407,10 @@ var families = map[string][]string{
 	"ints": {"[]int8", "[]int16", "[]int32", "[]int64", "[]uint8", "[]uint16", "[]uint32", "[]uint64", "[]uint", "[]int", "SmallPtrs", "[3]int", "ArrHolder",
 		"map[string]int8", "map[string]int16", "map[string]int32", "map[string]int64", "map[string]uint", "map[string]uint8", "map[string]uint16", "map[string]uint32", "map[string]uint64", "map[string]float32", "map[string]float64", "[]float32", "[]float64"},
 	"kv":     {"OrderedKV", "WithKV", "map[string]string", "Strs"},
-	"omit":   {"OmitIfc", "OmitAll", "LongNames", "Tagged"},
+	"arrays": {"Triple", "Pair", "Quad", "[]interface{}-of-named-arrays", "[3]int", "ArrHolder", "[]interface{}"},
+	"bad":    {"BadField", "HasBad", "[]BadField", "Simple", "Inner"},
+	"label":  {"Label", "Labeled", "Strs"},
+	"omit":   {"Opts", "[]Opts", "OmitIfc", "OmitAll", "LongNames", "Tagged"},
 	"empty":  {"[]Empty", "map[string]Empty", "Empties", "[]interface{}", "map[string]interface{}"},
 	"shape":  {"map[string]Shape", "[]Shape", "Shapes", "map[string]interface{}", "[]interface{}"},
 	"folder": {"WithFolder", "InlineFolder", "InlineIfc", "InlineMap", "InlineTyped", "map[string]interface{}"},
@@ -1318,7 +1419,7 @@ var families = map[string][]string{
 	"ifc":    {"interface{}", "[]interface{}", "map[string]interface{}", "[]map[string]interface{}", "Strs", "Tagged"},
 }
 
-var familyNames = []string{"wrap", "inline", "ints", "shape", "empty", "omit", "packed", "inner", "named", "score", "simple", "kv", "folder", "local", "ifc"}
+var familyNames = []string{"wrap", "inline", "ints", "shape", "empty", "omit", "arrays", "bad", "label", "packed", "inner", "named", "score", "simple", "kv", "folder", "local", "ifc"}
 
 // PickRelated draws n types; half of the time all from one family (types
 // that contain each other), else independently.
@@ -1346,7 +1447,7 @@ func PickRelated(c *simkit.Choices, n int, forUnfold bool) []*TypeEntry {
 // it is (measured: 6000 generated values per type), which gives an exact
 // ground truth for complete matching documents.
 var inexactRoundTrip = map[string]bool{"interface{}": true, "[]interface{}": true, "map[string]interface{}": true, "Tagged": true, "Strs": true,
-	"[]map[string]interface{}": true, "OmitAll": true, "local-A.record": true}
+	"[]map[string]interface{}": true, "OmitAll": true, "local-A.record": true, "Label": true, "Labeled": true}
 
 // ExactRoundTrip reports whether unfolding the fold of a value of this type
 // into a zero target must reproduce the value (nil and empty identified).
